@@ -191,10 +191,12 @@ def run(ctx, built):
     stream_after_harvest(ctx, ctx.scale(12, 150))
     TS.stream_tree(ctx, built, ctx.scale(25, 400), oracle(ctx), max_rows=ctx.scale(160, 400))
     TS.stream_tree(ctx, built, ctx.scale(5, 60), oracle(ctx), max_rows=ctx.scale(250, 1500), params="default", name="S-tree-default")
+    # three-column tables always (children 4..7 of a 3-column node, projections onto three different column pairs, rows that are outliers in two columns)
+    TS.stream_tree(ctx, built, ctx.scale(14, 120), oracle(ctx), ncols=3, rows=[45, 90, 150], name="S-tree-3col")
 
 
 def search(ctx, seeds):
     sub = Ctx(ctx.pid, "quick", ctx.seed + 49979687)
-    TS.stream_tree(sub, False, 60, oracle(sub))
+    TS.stream_tree(sub, False, 60, oracle(sub)); TS.stream_tree(sub, False, 40, oracle(sub), ncols=3, rows=[45, 90, 150], name="S-tree-3col")
     stream_after_harvest(sub, 40)
     ctx.oracle_failures += sub.oracle_failures
